@@ -6,6 +6,7 @@ N=$1; shift
 WT=/tmp/seedrepo-$N
 git -C /repo worktree remove --force $WT 2>/dev/null
 git -C /repo worktree add -q --detach $WT HEAD || exit 2
+[ -f $WT/Cargo.lock ] || cp /repo/Cargo.lock $WT/Cargo.lock     # not tracked in the repository; offline builds need the same lock file
 git -C $WT apply /verif/seeded/$N/patch.diff || { git -C /repo worktree remove --force $WT; exit 2; }
 export VERIF_REPO=$WT
 export VERIF_EVIDENCE_DIR=/verif/build/evidence-seeds; mkdir -p $VERIF_EVIDENCE_DIR
